@@ -956,5 +956,96 @@ pub mod ss {
             }
         }
     }
+
+    // --- the state a fresh BuildStates / Work starts in (closes the chain: Work::new establishes Work::run's preconditions)
+    pub open spec fn fresh(bs: BuildStates) -> bool {
+        &&& forall|b: int| 0 <= b < st_of(bs).len() ==> #[trigger] st_of(bs)[b] == BuildState::Unknown
+        &&& bs.counts.0@.len() == 6 && forall|k: int| 0 <= k < 6 ==> #[trigger] bs.counts.0@[k] == 0
+        &&& bs.total_pending == 0 && bs.ready@.len() == 0
+        &&& forall|j: int| 0 <= j < pools_of(bs).len() ==> (#[trigger] pools_of(bs)[j]).1.queued@.len() == 0 && pools_of(bs)[j].1.running == 0
+        &&& first_key(pools_of(bs), Seq::<char>::empty()) >= 0
+    }
+    /// SmallMap's own "first entry with an equal key" is first_key on the names
+    pub proof fn lemma_sm_first_key(ps: Seq<(String, PoolState)>, k: String)
+        ensures crate::smallmap::sm_first(ps, k) == first_key(ps, k@)
+        decreases ps.len()
+    {
+        broadcast use crate::vx_string_eq::g;
+        if ps.len() > 0 && ps[0].0@ != k@ { lemma_sm_first_key(ps.drop_first(), k); }
+    }
+    /// appending an entry keeps every existing name findable
+    pub proof fn lemma_first_key_push(ps: Seq<(String, PoolState)>, e: (String, PoolState), name: Seq<char>)
+        ensures first_key(ps, name) >= 0 ==> first_key(ps.push(e), name) == first_key(ps, name),
+            first_key(ps, name) < 0 && e.0@ == name ==> first_key(ps.push(e), name) == ps.len(),
+        decreases ps.len()
+    {
+        if ps.len() > 0 {
+            assert(ps.push(e).drop_first() =~= ps.drop_first().push(e));
+            if ps[0].0@ != name { lemma_first_key_push(ps.drop_first(), e, name); }
+        } else {
+            assert(ps.push(e).drop_first() =~= Seq::<(String, PoolState)>::empty());
+        }
+    }
+    /// replacing the value of entry i keeps every name where it was
+    pub proof fn lemma_first_key_same_names(a: Seq<(String, PoolState)>, b: Seq<(String, PoolState)>, name: Seq<char>)
+        requires a.len() == b.len(), forall|j: int| 0 <= j < a.len() ==> (#[trigger] a[j]).0@ == b[j].0@
+        ensures first_key(a, name) == first_key(b, name)
+        decreases a.len()
+    {
+        if a.len() > 0 {
+            assert forall|j: int| 0 <= j < a.drop_first().len() implies (#[trigger] a.drop_first()[j]).0@ == b.drop_first()[j].0@ by { assert(a[j + 1].0@ == b[j + 1].0@); }
+            lemma_first_key_same_names(a.drop_first(), b.drop_first(), name);
+        }
+    }
+    /// SmallMap::insert's effect (from its verified postcondition) on the names of the pool list
+    pub open spec fn sm_ins_names(p0: Seq<(String, PoolState)>, p1: Seq<(String, PoolState)>, k: String) -> bool {
+        let i = crate::smallmap::sm_first(p0, k);
+        if i >= 0 { p1.len() == p0.len() && forall|j: int| 0 <= j < p0.len() ==> (#[trigger] p1[j]).0 == p0[j].0 }
+        else { p1.len() == p0.len() + 1 && p1.take(p0.len() as int) == p0 && p1.last().0 == k }
+    }
+    pub proof fn lemma_pool_insert(p0: Seq<(String, PoolState)>, p1: Seq<(String, PoolState)>, k: String, name: Seq<char>)
+        requires sm_ins_names(p0, p1, k)
+        ensures first_key(p0, name) >= 0 ==> first_key(p1, name) >= 0, first_key(p1, k@) >= 0
+    {
+        lemma_sm_first_key(p0, k);
+        crate::smallmap::lemma_sm_first(p0, k);
+        let i = crate::smallmap::sm_first(p0, k);
+        if i >= 0 {
+            assert forall|j: int| 0 <= j < p0.len() implies (#[trigger] p0[j]).0@ == p1[j].0@ by {}
+            lemma_first_key_same_names(p0, p1, name);
+            lemma_first_key_same_names(p0, p1, k@);
+        } else {
+            assert(p1 =~= p0.push(p1.last()));
+            lemma_first_key_push(p0, p1.last(), name);
+            lemma_first_key_push(p0, p1.last(), k@);
+        }
+    }
+    pub proof fn lemma_count_none(st: Seq<BuildState>, p: spec_fn(int, BuildState) -> bool)
+        requires forall|i: int| 0 <= i < st.len() ==> !p(i, #[trigger] st[i])
+        ensures count(st, p) == 0
+        decreases st.len()
+    {
+        if st.len() > 0 {
+            assert forall|i: int| 0 <= i < st.drop_last().len() implies !p(i, #[trigger] st.drop_last()[i]) by { assert(st.drop_last()[i] == st[i]); }
+            lemma_count_none(st.drop_last(), p);
+        }
+    }
+    pub proof fn lemma_fresh_inv(g: Graph, bs: BuildStates)
+        requires gs::wf_graph(g), st_of(bs).len() == gs::builds(g).len(), fresh(bs), st_of(bs).len() < 0x7fff_ffff_ffff_0000
+        ensures bs_inv(g, bs), no_failed(st_of(bs)), cmd_inv(g, st_of(bs)),
+            forall|b: int| 0 <= b < st_of(bs).len() ==> rank(#[trigger] st_of(bs)[b]) != 4,
+    {
+        let st = st_of(bs);
+        assert forall|k: int| 0 <= k < 6 implies (#[trigger] bs.counts.0@[k]) as int == count(st, counted(g, state_of_idx(k))) by {
+            lemma_count_none(st, counted(g, state_of_idx(k)));
+        }
+        lemma_count_none(st, is_pending());
+        assert forall|j: int| 0 <= j < pools_of(bs).len() implies
+            (#[trigger] pools_of(bs)[j]).1.running as int == count(st, running_in(g, bs, j))
+            && (pools_of(bs)[j].1.depth > 0 ==> pools_of(bs)[j].1.running <= pools_of(bs)[j].1.depth)
+            && queue_ok(g, bs, pools_of(bs)[j].1.queued@, BuildState::Queued, j) by {
+            lemma_count_none(st, running_in(g, bs, j));
+        }
+    }
     }
 }
